@@ -61,8 +61,10 @@ structure Reg (K : Type) where
   implementation's numpy results. -/
   nReg : Nat
   lastOwn : K × K
-  /-- ghost: blow time of the newest point of that regression (where the two fits are compared:
-  comparing intercepts would extrapolate thousands of blows back and only measure conditioning) -/
+  /-- ghost: blow time of the newest point *retained in the data set* of that regression (where the
+  two fits are compared: comparing intercepts would extrapolate thousands of blows back and only
+  measure conditioning; so would comparing at a strike whose point was rejected for its weight, which
+  can lie hundreds of rows beyond the data once a degenerate fit has made every later weight 0) -/
   lastX : K := lastOwn.1
 
 def Reg.init {K} [Num K] (inertia pealSpeed gap : K) (minBells maxBells : Int) (initialInertia : K) :
@@ -106,7 +108,7 @@ def Reg.addDataPoint {K} [Num K] (r : Reg K) (reg : List (K × K × K) → K × 
   let r1 := { r with dataSet := ds3 }
   if Num.eqb inertia (Num.ofNat 1) then r1
   else if r.minBells ≤ (ds3.length : Int) then
-    ({ r1 with nReg := r.nReg + 1, lastOwn := regressCentred ds3, lastX := r.blowTime row place }).relerp (reg ds3) inertia
+    ({ r1 with nReg := r.nReg + 1, lastOwn := regressCentred ds3, lastX := (match ds3.getLast? with | some d => d.1 | none => r.blowTime row place) }).relerp (reg ds3) inertia
   else r1
 
 /-- What `wait_for_bell_time` of the regression rhythm does. -/
